@@ -9,6 +9,9 @@
 //	     conforming client that follows to /show twice.
 //	rtt  keys vals levels oldKeys oldVals wi<p1>.<p2>… | issued st2 seen2 exp2 st3 seen3
 //	     same, but the client copies the Set-Cookie value verbatim into its Cookie header.
+//	ish  keys vals levels oldKeys oldVals wi ends (each a '|'-joined list, one entry per step) | "status/issued" per step
+//	     issuing history on one app: consecutive /go requests reuse the pooled ctx and the pooled
+//	     Redirect; a step ending ok / back attaches data but never completes the redirect.
 //	rff  keys vals levels mode | issued st2 relaySeen issued2 exp2 st3 seen3 exp3 st4 seen4
 //	     re-flash: the verbatim client follows to /relay, whose handler re-attaches the messages it
 //	     received (mode same / rev / chg) and redirects again; then /show twice.
@@ -57,6 +60,7 @@ type script struct {
 var (
 	app       *fiber.App
 	cur       script
+	curEnd    string // how /go ends: "" / "to" = To("/show"); "ok" = plain 200 answer; "back" = Back() without Referer or fallback (error, no redirect)
 	relayMode string // how /relay re-attaches the messages it received
 	relaySeen string // what the /relay handler saw ("nohandler" if it did not run)
 )
@@ -82,6 +86,12 @@ func setup() {
 		}
 		for ; wi < len(cur.wipos); wi++ {
 			r.WithInput()
+		}
+		switch curEnd {
+		case "ok":
+			return c.SendString("stay") // data attached, redirect never completed
+		case "back":
+			return r.Back() // no Referer, no fallback: ErrRedirectBackNoFallback
 		}
 		return r.To("/show")
 	})
@@ -223,7 +233,7 @@ func optHex(s string, ok bool) string {
 // ---- conforming client: net/http ------------------------------------------------------------------
 
 func rtc(s script) []string {
-	cur = s
+	cur, curEnd = s, ""
 	u, _ := url.Parse("http://example.com/show")
 	jar, _ := cookiejar.New(nil)
 	raw1 := serve([]byte("GET /go" + queryOf(s) + " HTTP/1.1\r\nHost: example.com\r\n\r\n"))
@@ -285,7 +295,7 @@ func rawShow(cookie string, has bool) []byte {
 }
 
 func rtt(s script) []string {
-	cur = s
+	cur, curEnd = s, ""
 	raw1 := serve([]byte("GET /go" + queryOf(s) + " HTTP/1.1\r\nHost: example.com\r\n\r\n"))
 	issued, has := issuedValue(raw1)
 	out := []string{optHex(issued, has)}
@@ -314,7 +324,7 @@ func rawGet(path, cookie string, has bool) []byte {
 // the client applies that response (new value replaces the cookie, else an expiry drops it) and
 // follows to /show twice.
 func rff(s script, mode string) []string {
-	cur = s
+	cur, curEnd = s, ""
 	relayMode = mode
 	raw1 := serve([]byte("GET /go HTTP/1.1\r\nHost: example.com\r\n\r\n"))
 	ck, has := issuedValue(raw1)
@@ -342,6 +352,40 @@ func rff(s script, mode string) []string {
 	raw4 := serve(rawGet("/show", ck, has))
 	st4, seen4 := seenOf(raw4)
 	return append(out, gen.I(st3), seen3, gen.B(exp3), gen.I(st4), seen4)
+}
+
+// ---- issuing histories: pooled ctx + pooled Redirect reused by consecutive requests of one app ---------
+
+// ish: every step attaches With/WithInput data; a step ending "ok"/"back" never completes the redirect.
+// Observation per step: status/issued value.
+func ish(steps []script, ends []string) []string {
+	var obs []string
+	for i, s := range steps {
+		cur, curEnd = s, ends[i]
+		raw := serve([]byte("GET /go" + queryOf(s) + " HTTP/1.1\r\nHost: example.com\r\n\r\n"))
+		st := 0
+		if r, err := parseResp(raw); err == nil {
+			st = r.status
+		}
+		v, has := issuedValue(raw)
+		obs = append(obs, gen.I(st)+"/"+optHex(v, has))
+	}
+	curEnd = ""
+	return []string{strings.Join(obs, "|")}
+}
+
+func ishFields(steps []script, ends []string) []string {
+	cols := make([][]string, 6)
+	for _, s := range steps {
+		for j, f := range scriptFields(s) {
+			cols[j] = append(cols[j], f)
+		}
+	}
+	var out []string
+	for _, c := range cols {
+		out = append(out, strings.Join(c, "|"))
+	}
+	return append(out, strings.Join(ends, "|"))
 }
 
 // ---- decode histories ----------------------------------------------------------------------------------
@@ -511,6 +555,32 @@ func runCase(w *gen.Writer, id, kind string, in []string) {
 			obs = rtt(s)
 		}
 		w.Case(id, append(append([]string{kind}, in[:nf]...), obs...)...)
+	case "ish":
+		// 6 script columns (one entry per step, joined by '|') + endings
+		if len(in) < 7 {
+			return
+		}
+		var cols [][]string
+		for j := 0; j < 7; j++ {
+			cols = append(cols, strings.Split(in[j], "|"))
+		}
+		n := len(cols[6])
+		var steps []script
+		for i := 0; i < n; i++ {
+			var f []string
+			for j := 0; j < 6; j++ {
+				if len(cols[j]) != n {
+					return
+				}
+				f = append(f, cols[j][i])
+			}
+			sc, ok := parseScript(f)
+			if !ok || (cols[6][i] != "to" && cols[6][i] != "ok" && cols[6][i] != "back") {
+				return
+			}
+			steps = append(steps, sc)
+		}
+		w.Case(id, append(append([]string{kind}, in[:7]...), ish(steps, cols[6])...)...)
 	case "rff":
 		// keys vals levels mode
 		if len(in) < 4 {
@@ -577,6 +647,11 @@ func main() {
 		id := fmt.Sprintf("s%d.%d", o.Seed, i)
 		switch i % 4 {
 		case 0:
+			if (i/4)%2 == 1 {
+				steps, ends := genIssueHistory(r, w)
+				runCase(w, id, "ish", ishFields(steps, ends))
+				break
+			}
 			s := genScript(r, w, false)
 			runCase(w, id, "rtc", scriptFields(s))
 		case 1:
